@@ -813,16 +813,28 @@ class QueryObjectDescriptor(SymbolicExpression[T], ABC):
         :param sources: The current bindings.
         :return: An Iterable of OperationResults for each combination of values.
         """
-        var_val_gen = {
-            var: var._evaluate__(copy(sources), parent=self)
-            for var in self.selected_variables
-        }
-        for sol in generate_combinations(var_val_gen):
-            var_val = {var._id_: sol[var][var._id_] for var in self.selected_variables}
+        selected = self.selected_variables
+
+        def combinations(
+            position: int, bindings: Dict[int, HashedValue], chosen: Dict
+        ) -> Iterable[Tuple[Dict[int, HashedValue], Dict]]:
+            # lazy nested loops (leftmost varies slowest); every selected expression is evaluated under the bindings
+            # the ones before it produced, so that all of them speak about the same assignment
+            if position == len(selected):
+                yield bindings, chosen
+                return
+            var = selected[position]
+            for result in var._evaluate__(copy(bindings), parent=self):
+                yield from combinations(
+                    position + 1, result.bindings, {**chosen, var: result}
+                )
+
+        for bindings, sol in combinations(0, sources, {}):
+            var_val = {var._id_: sol[var][var._id_] for var in selected}
             self._is_false_ = self._is_false_ or any(
-                sol[var].is_false for var in self.selected_variables
+                sol[var].is_false for var in selected
             )
-            yield OperationResult({**sources, **var_val}, self._is_false_, self)
+            yield OperationResult({**bindings, **var_val}, self._is_false_, self)
 
     @cached_property
     def _all_variable_instances_(self) -> List[Variable]:
